@@ -302,12 +302,20 @@ def opJsonRep (j : Json) : Except String Json := do
   let (i2, d2, r2) := decodeRep rows vals
   pure (obj [("rows", enc (rows.map (fun r => r.2))), ("idl", enc i2), ("deltas", enc d2), ("rvals", enc r2)])
 
-/-- op "dobs": {"idl": [c], "nums": [written numbers]} -> {"kept": configurations that survive the import} -/
+/-- op "dobs": {"idl": [c], "nums": [written numbers], "merged": [c] (default idl), "value": x (default 0)}
+    -> {"kept": configurations that survive the import, "samples": their restored samples} -/
 def opDobs (j : Json) : Except String Json := do
   let idl : List Int ← get j "idl"
   let nums : List Float ← get j "nums"
-  let col := dobsColumn idl idl nums
-  pure (obj [("kept", enc ((dobsImport idl col (0 : Float)).map (·.1)))])
+  let merged : List Int ← match j.getObjVal? "merged" with
+    | .ok m => dec m
+    | .error _ => pure idl
+  let value : Float ← match j.getObjVal? "value" with
+    | .ok v => dec v
+    | .error _ => pure 0.0
+  let col := dobsColumn merged idl nums
+  let r := dobsImport merged col value
+  pure (obj [("kept", enc (r.map (·.1))), ("samples", enc (r.map (·.2)))])
 
 /-- op "cov": {"obs": [Obs], "dv": [x], "correlation": bool} -> {"m": [[x]]} -/
 def opCov (j : Json) : Except String Json := do
